@@ -179,9 +179,11 @@ func (c *Ctx) nodeFlatRule(fname string) {
 }
 
 // sortedBeforeSinkRule: C13-D3. In the named function, every slice handed to an order-sensitive
-// sink (strings.Join, reflect.DeepEqual, cmp.Equal, a concatenation loop) is sorted after its
-// last append and before the sink. Slices never appended to inside a loop over an unordered
-// source are exempt only if they are themselves sorted copies.
+// sink (strings.Join, reflect.DeepEqual, cmp.Equal, a string-concatenation loop) is in a
+// canonical order there: either it was sorted after its last order-dependent fill, or every
+// fill happened in a loop over a slice that was itself canonical. Order-dependent fills are
+// appends inside a range over a map, over a field of an operand (stored order), inside a
+// callback or a counted loop, and assignments from an operand's field.
 func (c *Ctx) sortedBeforeSinkRule(fname string) {
 	const R = "sorted-before-ordered-sink"
 	d := c.decl(R, fname)
@@ -190,11 +192,14 @@ func (c *Ctx) sortedBeforeSinkRule(fname string) {
 	}
 	info := d.pkg.TypesInfo
 	type ev struct {
-		pos  token.Pos
-		kind string // append | sort | sink
-		what string
+		pos     token.Pos
+		kind    string // fill | sort | sink
+		what    string
+		ordered bool // for fills: provably in canonical order
+		over    types.Object
+		loopPos token.Pos
 	}
-	events := map[types.Object][]ev{}
+	events := map[types.Object][]*ev{}
 	isSlice := func(o types.Object) bool {
 		if o == nil {
 			return false
@@ -202,7 +207,55 @@ func (c *Ctx) sortedBeforeSinkRule(fname string) {
 		_, ok := o.Type().Underlying().(*types.Slice)
 		return ok
 	}
-	// aliases: `tos := e.To` makes tos an alias; still a local variable for this rule.
+	recv, par := recvAndParam(d)
+	mentionsOperand := func(e ast.Expr) bool {
+		found := false
+		ast.Inspect(e, func(n ast.Node) bool {
+			if sel, ok := n.(*ast.SelectorExpr); ok {
+				if o := objOf(d.pkg, sel.X); o != nil && (o == recv || o == par) {
+					found = true
+				}
+			}
+			if id, ok := n.(*ast.Ident); ok {
+				if o := objOf(d.pkg, id); o != nil && !isLocal(d, o) {
+					if _, isVar := o.(*types.Var); isVar && isSlice(o) {
+						found = true // a slice parameter
+					}
+				}
+			}
+			return true
+		})
+		return found
+	}
+	// enclosing loop context of a node: the innermost loops from outside in
+	loopCtx := func(n ast.Node) (unordered bool, over types.Object, loopPos token.Pos) {
+		chain := enclosing(d.fd.Body, n)
+		for _, x := range chain {
+			switch l := x.(type) {
+			case *ast.FuncLit:
+				unordered = true // callback invoked in an order we do not control
+			case *ast.ForStmt:
+				unordered = true
+			case *ast.RangeStmt:
+				t := info.TypeOf(l.X)
+				if t == nil {
+					unordered = true
+					continue
+				}
+				if _, isMap := t.Underlying().(*types.Map); isMap {
+					unordered = true
+					continue
+				}
+				o := objOf(d.pkg, l.X)
+				if o != nil && isLocal(d, o) && isSlice(o) {
+					over, loopPos = o, l.Pos()
+					continue
+				}
+				unordered = true // a field of an operand, a call result, a parameter
+			}
+		}
+		return
+	}
 	ast.Inspect(d.fd.Body, func(n ast.Node) bool {
 		switch s := n.(type) {
 		case *ast.AssignStmt:
@@ -213,8 +266,17 @@ func (c *Ctx) sortedBeforeSinkRule(fname string) {
 				}
 				if ce, ok := s.Rhs[i].(*ast.CallExpr); ok {
 					if id, ok := ce.Fun.(*ast.Ident); ok && id.Name == "append" {
-						events[o] = append(events[o], ev{s.Pos(), "append", "append"})
+						un, over, lp := loopCtx(s)
+						// appending a whole operand slice keeps its stored order
+						if len(ce.Args) > 1 && ce.Ellipsis.IsValid() && mentionsOperand(ce.Args[len(ce.Args)-1]) {
+							un = true
+						}
+						events[o] = append(events[o], &ev{pos: s.Pos(), kind: "fill", what: "append", ordered: !un, over: over, loopPos: lp})
+						continue
 					}
+				}
+				if mentionsOperand(s.Rhs[i]) {
+					events[o] = append(events[o], &ev{pos: s.Pos(), kind: "fill", what: "assignment from an operand's list"})
 				}
 			}
 		case *ast.CallExpr:
@@ -226,16 +288,16 @@ func (c *Ctx) sortedBeforeSinkRule(fname string) {
 			switch full {
 			case "sort.Strings", "sort.Ints", "sort.Slice", "sort.SliceStable", "slices.Sort", "sort.Sort", "sort.Stable", "slices.SortFunc", "slices.SortStableFunc":
 				if o := objOf(d.pkg, s.Args[0]); isSlice(o) {
-					events[o] = append(events[o], ev{s.Pos(), "sort", full})
+					events[o] = append(events[o], &ev{pos: s.Pos(), kind: "sort", what: full})
 				}
 			case "strings.Join":
 				if o := objOf(d.pkg, s.Args[0]); isSlice(o) {
-					events[o] = append(events[o], ev{s.Pos(), "sink", full})
+					events[o] = append(events[o], &ev{pos: s.Pos(), kind: "sink", what: full})
 				}
-			case "reflect.DeepEqual", "github.com/google/go-cmp/cmp.Equal":
+			case "reflect.DeepEqual", "github.com/google/go-cmp/cmp.Equal", "slices.Equal":
 				for _, a := range s.Args[:min(2, len(s.Args))] {
 					if o := objOf(d.pkg, a); isSlice(o) {
-						events[o] = append(events[o], ev{s.Pos(), "sink", full})
+						events[o] = append(events[o], &ev{pos: s.Pos(), kind: "sink", what: full})
 					}
 				}
 			}
@@ -270,7 +332,7 @@ func (c *Ctx) sortedBeforeSinkRule(fname string) {
 			}
 			// concatenation loop over a local slice: for _, s := range vals { ret += ... }
 			o := objOf(d.pkg, s.X)
-			if !isSlice(o) {
+			if !isSlice(o) || !isLocal(d, o) {
 				return true
 			}
 			concat := false
@@ -285,42 +347,54 @@ func (c *Ctx) sortedBeforeSinkRule(fname string) {
 				return true
 			})
 			if concat {
-				if _, isParam := o.(*types.Var); isParam && isLocal(d, o) {
-					events[o] = append(events[o], ev{s.Pos(), "sink", "string concatenation loop"})
-				}
+				events[o] = append(events[o], &ev{pos: s.Pos(), kind: "sink", what: "string concatenation loop"})
 			}
 		}
 		return true
 	})
+	var canonicalAt func(o types.Object, pos token.Pos, depth int) (bool, string)
+	canonicalAt = func(o types.Object, pos token.Pos, depth int) (bool, string) {
+		if depth > 4 {
+			return false, "derivation too deep"
+		}
+		evs := events[o]
+		var lastSort token.Pos
+		for _, e := range evs {
+			if e.pos < pos && e.kind == "sort" && e.pos > lastSort {
+				lastSort = e.pos
+			}
+		}
+		for _, e := range evs {
+			if e.kind != "fill" || e.pos >= pos || e.pos < lastSort {
+				continue
+			}
+			// a fill after the last sort: must itself be order-preserving
+			if !e.ordered {
+				return false, fmt.Sprintf("%s at %s happens in stored/iteration order and no sort follows it", e.what, c.P.Pos(e.pos))
+			}
+			if e.over != nil {
+				if ok, why := canonicalAt(e.over, e.loopPos, depth+1); !ok {
+					return false, fmt.Sprintf("filled in a loop over %s, which is not in canonical order there (%s)", e.over.Name(), why)
+				}
+			}
+		}
+		return true, ""
+	}
 	var objs []types.Object
 	for o := range events {
 		objs = append(objs, o)
 	}
 	sort.Slice(objs, func(i, j int) bool { return objs[i].Pos() < objs[j].Pos() })
 	for _, o := range objs {
-		evs := events[o]
-		sort.Slice(evs, func(i, j int) bool { return evs[i].pos < evs[j].pos })
-		for _, e := range evs {
+		for _, e := range events[o] {
 			if e.kind != "sink" {
 				continue
 			}
-			// last append and last sort before the sink
-			var lastAppend, lastSort token.Pos
-			for _, p := range evs {
-				if p.pos >= e.pos {
-					break
-				}
-				switch p.kind {
-				case "append":
-					lastAppend = p.pos
-				case "sort":
-					lastSort = p.pos
-				}
-			}
 			construct := fmt.Sprintf("%s#%s→%s", fname, o.Name(), e.what)
-			c.check(lastSort.IsValid() && lastSort > lastAppend, R, construct, c.P.Pos(e.pos),
-				fmt.Sprintf("%s is sorted after its last append and before %s", o.Name(), e.what),
-				fmt.Sprintf("slice %s reaches the order-sensitive sink %s without a sort after its last append: equality depends on stored order", o.Name(), e.what))
+			ok, why := canonicalAt(o, e.pos, 0)
+			c.check(ok, R, construct, c.P.Pos(e.pos),
+				fmt.Sprintf("%s is in canonical order when it reaches %s", o.Name(), e.what),
+				fmt.Sprintf("slice %s reaches the order-sensitive sink %s in an order that depends on how the value is stored: %s", o.Name(), e.what, why))
 		}
 	}
 }
